@@ -11,8 +11,8 @@ import (
 	"strings"
 	"time"
 
-	vrt "github.com/sheerbytes/sheerbytes/internal/verif/vrt"
 	"github.com/sheerbytes/sheerbytes/internal/verif/vlib"
+	vrt "github.com/sheerbytes/sheerbytes/internal/verif/vrt"
 )
 
 var res *vlib.Result
@@ -193,7 +193,11 @@ func replayMode() {
 	if rp.Mode == "c17" {
 		var cc C17Case
 		json.Unmarshal([]byte(rp.Extra), &cc)
-		x, err := vrt.Replay(baseCfg(), rp.Choices, func() { runC17(cc) })
+		ccfg := baseCfg()
+		if rp.Cfg != nil {
+			ccfg = *rp.Cfg
+		}
+		x, err := vrt.Replay(ccfg, rp.Choices, func() { runC17(cc) })
 		if err != nil {
 			res.InfraError("%v", err)
 			return
